@@ -317,6 +317,18 @@ impl Im2Col<'_, i8> {
             for start_row in rows.clone().step_by(K_TILE) {
                 for i in 0..K_TILE {
                     let k = start_row + i;
+
+                    // Rows added to make the row count a multiple of `K_TILE`
+                    // are not part of the matrix. They are filled with zeros,
+                    // like the corresponding columns of the packed LHS. The
+                    // offsets for these rows are only outside the image for
+                    // columns which don't start in the top or left padding.
+                    let is_matrix_row = k < self.n_rows;
+
+                    // Value used for elements in the image's padding. This is
+                    // the value that represents zero.
+                    let pad_elem = if is_matrix_row { zero_point } else { 0 };
+
                     let row_x_offset = ops.splat(unsafe { *row_x_offsets.get_unchecked(k) });
                     let row_y_offset = ops.splat(unsafe { *row_y_offsets.get_unchecked(k) });
                     let row_chan_offset = ops.splat(unsafe { *row_chan_offsets.get_unchecked(k) });
@@ -346,13 +358,20 @@ impl Im2Col<'_, i8> {
                             let src_elem =
                                 unsafe { *img_data.get_unchecked(offsets_array[idx] as usize) };
 
+                            let elem = if is_matrix_row && pad_mask_array[idx] {
+                                src_elem
+                            } else {
+                                pad_elem
+                            };
                             if CAST_B_U8 {
-                                let src_elem = shift_cast_i8_u8(src_elem);
-                                let elem = if pad_mask_array[idx] { src_elem } else { 0 };
+                                let elem = if is_matrix_row {
+                                    shift_cast_i8_u8(elem)
+                                } else {
+                                    0
+                                };
                                 col_sums[c_block][idx] += elem as i32;
                                 out_elem.write(elem as i8);
                             } else {
-                                let elem = if pad_mask_array[idx] { src_elem } else { 0 };
                                 col_sums[c_block][idx] += elem as i32;
                                 out_elem.write(elem);
                             }
